@@ -1156,6 +1156,84 @@ fn all_oplogdisk_scenarios() -> Vec<String> {
     out
 }
 
+// ------------------------------------------------------------------ family: wsserver (the REAL WebSocket transport: start_web_socket_client on a loopback port, one event loop for all clients)
+static WS_SERVER: std::sync::OnceLock<Option<(String, Arc<Databases>)>> = std::sync::OnceLock::new();
+fn ws_server() -> &'static Option<(String, Arc<Databases>)> {
+    WS_SERVER.get_or_init(|| {
+        let dbs = mk_dbs();
+        let w = World { dbs: dbs.clone() };
+        let (mut admin, mut arx) = Client::new_empty_and_receiver();
+        for c in ["auth u p", "create-db wd wtok", "use-db wd wtok", "set k 1", "set alive yes"] { run_cmd(&w, &mut admin, &mut arx, c); }
+        admin.left(&dbs);
+        std::mem::forget(arx);
+        let port = { let probe = std::net::TcpListener::bind("127.0.0.1:0").ok()?; probe.local_addr().ok()?.port() };
+        let addr = format!("127.0.0.1:{}", port);
+        { let dbs = dbs.clone(); let a = Arc::new(addr.clone()); std::thread::spawn(move || nundb::network::ws_ops::start_web_socket_client(dbs, a)); }
+        for _ in 0..400 { if std::net::TcpStream::connect(&addr).is_ok() { std::thread::sleep(std::time::Duration::from_millis(50)); return Some((addr, dbs)); } std::thread::sleep(std::time::Duration::from_millis(10)); }
+        None
+    })
+}
+/// one WebSocket session: sends the frames, collects what arrives within the time limit, closes
+fn ws_session(addr: &str, frames: Vec<ws::Message>, wait_ms: u64) -> Option<Vec<String>> {
+    struct C { out: ws::Sender, frames: Vec<ws::Message>, got: std::sync::Arc<std::sync::Mutex<Vec<String>>>, wait_ms: u64 }
+    impl ws::Handler for C {
+        fn on_open(&mut self, _: ws::Handshake) -> ws::Result<()> {
+            for f in self.frames.drain(..) { self.out.send(f)?; }
+            self.out.timeout(self.wait_ms, ws::util::Token(1))
+        }
+        fn on_message(&mut self, msg: ws::Message) -> ws::Result<()> { if let Ok(t) = msg.as_text() { self.got.lock().unwrap().push(t.to_string()); } Ok(()) }
+        fn on_timeout(&mut self, _: ws::util::Token) -> ws::Result<()> { self.out.close(ws::CloseCode::Normal) }
+    }
+    let got = std::sync::Arc::new(std::sync::Mutex::new(vec![]));
+    let g2 = got.clone();
+    let url = format!("ws://{}", addr);
+    let r = ws::connect(url, move |out| C { out, frames: frames.clone(), got: g2.clone(), wait_ms });
+    if r.is_err() { return None; }
+    let v = got.lock().unwrap().clone();
+    Some(v)
+}
+fn scenario_wsserver(sc: &str) -> Result<Violations, String> {
+    // sc = "text" (one frame with several commands separated by ';'), "binary" (a binary frame first), "leave" (select + watch, then close)
+    let (addr, dbs) = match ws_server() { Some(x) => x, None => return Err("ws server did not start".into()) };
+    let mut v: Violations = vec![];
+    let counters = |dbs: &Arc<Databases>| -> (usize, usize) {
+        let m = dbs.map.read().unwrap(); let d = m.get("wd").unwrap();
+        let watchers = d.watchers.map.read().unwrap().get("k").map_or(0, |l| l.len());
+        (d.connections_count(), watchers)
+    };
+    let alive = |v: &mut Violations| {
+        // the service still answers a new client (one event loop serves every WebSocket client)
+        let r = ws_session(addr, vec![ws::Message::text("use-db wd wtok;get alive")], 150);
+        let ok = r.map_or(false, |msgs| msgs.iter().any(|m| m.contains("value yes")));
+        chk(v, "C10.safety", ok); chk(v, "C10.ws-service-survives", ok);
+    };
+    match sc {
+        "text" => {
+            // several commands in one frame: executed once each, in order - the refused one does not shift the others
+            let r = ws_session(addr, vec![ws::Message::text("use-db wd wtok;get k;get nosuchkey;set-safe k -5 x;get k")], 200).ok_or("connect failed")?;
+            let joined = r.join("");
+            let values = joined.matches("value ").count();
+            chk(&mut v, "C20.ws-each-command-once-in-order", values == 3 && joined.find("value 1").is_some() && joined.find("value <Empty>").map_or(false, |e| e > joined.find("value 1").unwrap()));
+            alive(&mut v);
+        }
+        "binary" => {
+            let _ = ws_session(addr, vec![ws::Message::binary(vec![0xffu8, 0xfe, 0x00, 0x80]), ws::Message::text("use-db wd wtok;get k")], 150);
+            alive(&mut v);
+        }
+        "leave" => {
+            for _ in 0..200 { if counters(dbs) == (0, 0) { break; } std::thread::sleep(std::time::Duration::from_millis(5)); }
+            let before = counters(dbs);
+            let _ = ws_session(addr, vec![ws::Message::text("use-db wd wtok;watch k")], 150);
+            let mut released = false;
+            for _ in 0..400 { if counters(dbs) == before { released = true; break; } std::thread::sleep(std::time::Duration::from_millis(5)); }
+            for l in ["C17.disconnect-releases-session", "C17.count-is-open-sessions", "C03.disconnect-unsubscribes"] { chk(&mut v, l, released); }
+        }
+        _ => return Err("bad wsserver scenario".into()),
+    }
+    Ok(v)
+}
+fn all_wsserver_scenarios() -> Vec<String> { vec!["text".into(), "leave".into(), "binary".into()] }
+
 // ------------------------------------------------------------------ family: race (real threads; schedule dependent: a clean run proves nothing, a failing run is a real lost update)
 fn scenario_race(sc: &str) -> Result<Violations, String> {
     // sc = "<threads>x<increments per thread>": the threads increment ONE key of one database concurrently; every increment is acknowledged, so none may be lost
@@ -1204,6 +1282,21 @@ fn scenario_tcpserver(sc: &str) -> Result<Violations, String> {
     let n: usize = p.get(1).and_then(|x| x.parse().ok()).ok_or("bad count")?;
     let (addr, dbs) = match tcp_server() { Some(x) => x, None => return Err("tcp server did not start".into()) };
     let mut v: Violations = vec![];
+    if p[0] == "garbage" {
+        // bytes that are not UTF-8, a NUL, a very long line: the connection's thread must survive and answer the next command; other clients are served
+        for _ in 0..n {
+            let mut s = std::net::TcpStream::connect(addr).map_err(|e| e.to_string())?;
+            let _ = s.set_read_timeout(Some(std::time::Duration::from_millis(400)));
+            let mut junk: Vec<u8> = vec![0xff, 0xfe, 0x80, b'\n', 0x00, b'\n'];
+            junk.extend(std::iter::repeat(0xc3u8).take(3000)); junk.push(b'\n');
+            s.write_all(&junk).map_err(|e| e.to_string())?;
+            s.write_all(b"use-db td ttok\nget k\n").map_err(|e| e.to_string())?;
+            let mut got = String::new(); let mut buf = [0u8; 4096];
+            for _ in 0..20 { match s.read(&mut buf) { Ok(0) => break, Ok(m) => { got.push_str(&String::from_utf8_lossy(&buf[..m])); if got.contains("value 1") { break; } } Err(_) => { if got.contains("value 1") { break; } } } }
+            chk(&mut v, "C10.safety", got.contains("value 1")); chk(&mut v, "C10.tcp-connection-survives-garbage", got.contains("value 1"));
+        }
+        return Ok(v);
+    }
     let counters = |dbs: &Arc<Databases>| -> (usize, usize) {
         let m = dbs.map.read().unwrap(); let d = m.get("td").unwrap();
         let watchers = d.watchers.map.read().unwrap().get("k").map_or(0, |l| l.len());
@@ -1231,7 +1324,7 @@ fn scenario_tcpserver(sc: &str) -> Result<Violations, String> {
     }
     Ok(v)
 }
-fn all_tcpserver_scenarios() -> Vec<String> { vec!["fin.3".to_string(), "rst.3".to_string()] }
+fn all_tcpserver_scenarios() -> Vec<String> { vec!["fin.3".to_string(), "rst.3".to_string(), "garbage.2".to_string()] }
 
 // ------------------------------------------------------------------ family: httpserver (the REAL transport: start_http_client on a loopback port, four worker threads)
 /// every HTTP request is a session of its own: nothing an earlier request did (authentication, database selection) is available to a later one, whichever worker serves it
@@ -1280,6 +1373,22 @@ fn scenario_httpserver(sc: &str) -> Result<Violations, String> {
         // the reply of a request holds one entry per command of THAT request (nothing left over from the previous request on the same worker)
         let two = http_post(addr, "use-db hd htok;get pub");
         chk(&mut v, "C20.request-is-own-session", two.split(';').count() == 2 && two.contains("value 1"));
+    }
+    // ---- bodies that are not UTF-8 / empty / huge: every worker must survive them and keep serving
+    for _ in 0..n.min(12) {
+        use std::io::{Read, Write};
+        if let Ok(mut st) = std::net::TcpStream::connect(addr.as_str()) {
+            let _ = st.set_read_timeout(Some(std::time::Duration::from_millis(300)));
+            let body: Vec<u8> = vec![0xff, 0xfe, 0x80, 0x00, 0xc3];
+            let _ = st.write_all(format!("POST / HTTP/1.1\r\nHost: {}\r\nContent-Length: {}\r\nConnection: close\r\n\r\n", addr, body.len()).as_bytes());
+            let _ = st.write_all(&body);
+            let mut sink = Vec::new(); let _ = st.read_to_end(&mut sink);
+        }
+        let _ = http_post(addr, "");
+    }
+    for _ in 0..n.min(12) {
+        let ok = http_post(addr, "use-db hd htok;get pub").contains("value 1");
+        chk(&mut v, "C10.safety", ok); chk(&mut v, "C10.http-workers-survive-garbage", ok);
     }
     let secret = { let m = dbs.map.read().unwrap(); m.get("hd").and_then(|d| d.get_value("$$secret".into())) };
     let intact = secret.map_or(false, |e| e.value == "S3CR3T" && e.state != ValueStatus::Deleted);
@@ -1394,14 +1503,15 @@ fn families() -> Vec<(&'static str, fn() -> Vec<String>, fn(&str) -> Result<Viol
          ("httpserver", all_httpserver_scenarios, scenario_httpserver),
          ("tcpserver", all_tcpserver_scenarios, scenario_tcpserver),
          ("race", all_race_scenarios, scenario_race),
-         ("oplogdisk", all_oplogdisk_scenarios, scenario_oplogdisk)]
+         ("oplogdisk", all_oplogdisk_scenarios, scenario_oplogdisk),
+         ("wsserver", all_wsserver_scenarios, scenario_wsserver)]
 }
 /// the properties whose clause labels a family can report (every family reports C10.safety when a call panics, so C10 runs them all)
 fn family_props(fam: &str) -> &'static [&'static str] {
     match fam {
         "store" => &["C01", "C02", "C03", "C08"], "strategy" => &["C02", "C13", "C19"], "pending" => &["C15"], "ids" => &["C16"], "keymap" => &["C16"],
         "oplog" => &["C12"], "session" => &["C01", "C08", "C09"], "permchange" => &["C09"], "arbiter" => &["C13"], "watch" => &["C03"], "lines" => &[], "flood" => &[],
-        "connections" => &["C17"], "snapshot" => &["C01", "C06"], "resync" => &["C05"], "election" => &["C07"], "http" => &["C20"], "httpserver" => &["C08", "C09", "C17", "C20"], "tcpserver" => &["C03", "C17"], "race" => &["C01", "C02"], "oplogdisk" => &["C16"],
+        "connections" => &["C17"], "snapshot" => &["C01", "C06"], "resync" => &["C05"], "election" => &["C07"], "http" => &["C20"], "httpserver" => &["C08", "C09", "C17", "C20"], "tcpserver" => &["C03", "C17"], "race" => &["C01", "C02"], "oplogdisk" => &["C16"], "wsserver" => &["C03", "C17", "C20"],
         _ => &[],
     }
 }
